@@ -815,7 +815,7 @@ func (m *vfMachine) addBlock(before []*Item) {
 	// C21: the transactions of an added block are no longer in the pool afterwards
 	for _, tx := range blk.Txs {
 		if now[string(tx.Hash())] {
-			m.fail("transaction %s of the added block is still in the pool", m.byHash[string(tx.Hash())].ID)
+			m.fail("transaction %s of the added block (%v) is still in the pool", vfHex(tx.Hash()), ids)
 		}
 	}
 	if h := m.e.mem.GetHeader(); h.Height != m.height || h.BlockTime != m.btime {
